@@ -1540,11 +1540,13 @@ fn cast_num(
             // float to int
 
             // cranelift can only convert floats to i32 or i64, so we do that first,
-            // then cast the i32 or i64 to the actual one we want
-            let int_to = match cast_from.bit_width() {
-                32 => types::I32,
-                64 => types::I64,
-                _ => unreachable!(),
+            // then cast the i32 or i64 to the actual one we want.
+            // the intermediate int is chosen by the *target* width so that every value which
+            // fits the target survives the conversion
+            let int_to = if cast_to.bit_width() <= 32 {
+                types::I32
+            } else {
+                types::I64
             };
 
             let first_cast = if cast_to.signed {
@@ -1554,7 +1556,7 @@ fn cast_num(
             };
 
             // now we can convert the `first_cast` int value to the actual int type we want
-            match cast_from.bit_width().cmp(&cast_to.bit_width()) {
+            match int_to.bits().cmp(&(cast_to.bit_width() as u32)) {
                 std::cmp::Ordering::Less if cast_to.signed => {
                     builder.ins().sextend(cast_to.ty, first_cast)
                 }
@@ -1566,17 +1568,16 @@ fn cast_num(
         (false, true) => {
             // int to float
 
-            // first we have to convert the int to an int that can converted to float
-            let int_to = match cast_to.bit_width() {
-                32 => types::I32,
-                64 => types::I64,
-                _ => unreachable!(),
+            // first we have to convert the int to an int that can be converted to float
+            // without losing any of its value (cranelift converts from i32 and i64)
+            let int_to = if cast_from.bit_width() <= 32 {
+                types::I32
+            } else {
+                types::I64
             };
 
-            let first_cast = match cast_from.bit_width().cmp(&cast_to.bit_width()) {
-                std::cmp::Ordering::Less if cast_from.signed && cast_to.signed => {
-                    builder.ins().sextend(int_to, val)
-                }
+            let first_cast = match (cast_from.bit_width() as u32).cmp(&int_to.bits()) {
+                std::cmp::Ordering::Less if cast_from.signed => builder.ins().sextend(int_to, val),
                 std::cmp::Ordering::Less => builder.ins().uextend(int_to, val),
                 std::cmp::Ordering::Equal => val,
                 std::cmp::Ordering::Greater => builder.ins().ireduce(int_to, val),
@@ -1591,8 +1592,9 @@ fn cast_num(
         }
         (false, false) => {
             // int to int
+            // widening follows the signedness of the source type
             match cast_from.bit_width().cmp(&cast_to.bit_width()) {
-                std::cmp::Ordering::Less if cast_from.signed && cast_to.signed => {
+                std::cmp::Ordering::Less if cast_from.signed => {
                     builder.ins().sextend(cast_to.ty, val)
                 }
                 std::cmp::Ordering::Less => builder.ins().uextend(cast_to.ty, val),
